@@ -39,6 +39,7 @@ import (
 	"istio.io/istio/pkg/config/schema/kind"
 	"istio.io/istio/pkg/env"
 	pm "istio.io/istio/pkg/model"
+	"istio.io/istio/pkg/simhook"
 	"istio.io/istio/pkg/util/sets"
 	"istio.io/istio/pkg/xds"
 )
@@ -271,6 +272,7 @@ func (s *DiscoveryServer) initConnection(node *core.Node, con *Connection, ident
 	// Register that initialization is complete. This triggers to calls that it is safe to access the
 	// proxy
 	defer con.MarkInitialized()
+	simhook.Yield("ads.init.afterAddCon", proxy.ID)
 
 	// Complete full initialization of the proxy
 	if err := s.initializeProxy(con); err != nil {
